@@ -528,17 +528,21 @@ fn position_args(rng: &mut Rng, len: usize, runs: &Runs, extra: usize) -> Vec<us
 
 /// Counts select queries that land strictly inside a long superblock (offset > 0), as observed in the
 /// real select support structure (bit 0 of the superblock's pointer is 0 for a long superblock).
-fn long_hits(bv: &AnyBv, which: usize, count: usize, ranks: &[usize]) -> usize {
-    let plain = match bv { AnyBv::Plain(b) => b, _ => return 0 };
-    let elems = crate::layout::to_elements(&crate::layout::to_bytes(plain));
-    let l = crate::layout::Cursor::new(&elems).bit();
-    let sel = match &l.opts[which] { Some(e) => crate::layout::select_layout(e), None => return 0 };
-    let mut hits = 0;
-    for r in ranks.iter() {
-        if *r >= count || r % 4096 == 0 { continue; }
-        if sel.0.get(2 * (r / 4096) + 1) & 1 == 0 { hits += 1; }
-    }
-    hits
+/// `None` if the serialized object cannot be read with the layout the format document gives (the regime counter is then unavailable;
+/// that the bytes follow the document is C07's business, not a reason for this recorder to fail).
+fn long_hits(bv: &AnyBv, which: usize, count: usize, ranks: &[usize]) -> Option<usize> {
+    let plain = match bv { AnyBv::Plain(b) => b, _ => return Some(0) };
+    guarded(|| {
+        let elems = crate::layout::to_elements(&crate::layout::to_bytes(plain));
+        let l = crate::layout::Cursor::new(&elems).bit();
+        let sel = match &l.opts[which] { Some(e) => crate::layout::select_layout(e), None => return 0 };
+        let mut hits = 0;
+        for r in ranks.iter() {
+            if *r >= count || r % 4096 == 0 { continue; }
+            if sel.0.get(2 * (r / 4096) + 1) & 1 == 0 { hits += 1; }
+        }
+        hits
+    }).ok()
 }
 
 /// Emits the events of one object: a `def` event and batched query events.
@@ -594,10 +598,13 @@ pub fn record_object(out: &mut TraceOut, rng: &mut Rng, label: &str, kind: &str,
         stats["widths"][key] = json!(stats["widths"][format!("w{}", low.width)].as_u64().unwrap_or(0) + 1);
     }
     if kind == "plain" {
-        let h1 = long_hits(&bv, 1, ones, &sel);
-        let h0 = long_hits(&bv, 2, len - ones, &sel0);
-        stats["long_one_hits"] = json!(stats["long_one_hits"].as_u64().unwrap_or(0) + h1 as u64);
-        stats["long_zero_hits"] = json!(stats["long_zero_hits"].as_u64().unwrap_or(0) + h0 as u64);
+        match (long_hits(&bv, 1, ones, &sel), long_hits(&bv, 2, len - ones, &sel0)) {
+            (Some(h1), Some(h0)) => {
+                stats["long_one_hits"] = json!(stats["long_one_hits"].as_u64().unwrap_or(0) + h1 as u64);
+                stats["long_zero_hits"] = json!(stats["long_zero_hits"].as_u64().unwrap_or(0) + h0 as u64);
+            },
+            _ => { stats["layout_unreadable"] = json!(stats["layout_unreadable"].as_u64().unwrap_or(0) + 1); },
+        }
     }
 }
 
@@ -695,6 +702,16 @@ pub fn sparse_regimes(rng: &mut Rng, thorough: bool) -> Vec<(String, usize, Runs
 /// Contents aimed at the encoding regimes of the run-length vector (DESIGN C03: L1, L2, L4).
 pub fn rl_regimes(rng: &mut Rng, thorough: bool) -> Vec<(String, usize, Runs)> {
     let mut out: Vec<(String, usize, Runs)> = Vec::new();
+    // L6: a block that is nearly full (24 .. 31 runs of two code units each) and then a run whose gap or length needs 5, 6, 8 or 12 code
+    // units: the run must go to the next block whole
+    for (short, gap, rl) in [(24usize, 4096usize, 1usize), (27, 4095, 3), (28, (1 << 23) + 5, 2), (29, 1 << 15, 4096), (30, 1 << 35, 1), (31, 5, 1 << 17), (26, 1 << 12, 1 << 12)] {
+        let mut runs: Runs = Vec::new();
+        let mut pos = 0;
+        for i in 0..short { pos += 1 + i % 7; runs.push((pos, 1 + i % 8)); pos += 1 + i % 8; }
+        pos += gap; runs.push((pos, rl)); pos += rl;
+        for i in 0..5 { pos += 2 + i; runs.push((pos, 3)); pos += 3; }
+        if pos + 9 <= (1usize << 31) - 8 { out.push((format!("L6.nearfull{}", short), pos + 9, runs)); }
+    }
     // L1: 1, 8, 9, 64, 500 blocks of short runs (about 16 runs of 2 + 2 code units per block).
     let block_counts: Vec<usize> = if thorough { vec![1, 2, 8, 9, 10, 64, 65, 500] } else { vec![1, 8, 9, 10, 70] };
     for blocks in block_counts {
